@@ -396,6 +396,11 @@ func c15EsmGraph(rng *Rng) c15Graph {
 	files := map[string]string{}
 	exports := make([][]string, n)
 	pool := append([]string{"e", "t"}, sgPoolAll[2+rng.Intn(4):8+rng.Intn(4)]...)
+	if rng.Intn(3) == 0 {
+		// few names that are numbered variants of each other: the suffixes collision avoidance hands out (x2, e2, …) are
+		// themselves declared names of other files, in the shared chunks of a splitting build as well
+		pool = []string{"x", "x2", "x3", "e", "e2", "t", "t2"}[:4+rng.Intn(4)]
+	}
 	for i := 0; i < n; i++ {
 		g := newScopegen(rng.Fork(fmt.Sprint("file", i)), sgOpts{Module: true, TopLexFirst: true, Pool: pool, MaxDepth: 2 + rng.Intn(3)})
 		var head, nsProbes strings.Builder
